@@ -503,10 +503,10 @@ class Doist(tyming.Tymist):
         for doer in doers:
             if doer not in self.doers and doer not in unique:
                 unique.append(doer)
-        doers = unique
-        deeds = self.enter(doers=doers)  # provide fresh deeds for new doers
-        self.doers.extend(doers)
-        self.deeds.extend(deeds)
+        for doer in unique:  # one at a time so those entered before a failed enter get exited
+            deeds = self.enter(doers=[doer])  # provide fresh deed for new doer
+            self.doers.append(doer)
+            self.deeds.extend(deeds)
 
 
     def remove(self, doers):
@@ -1382,10 +1382,10 @@ class DoDoer(Doer):
         for doer in doers:
             if doer not in self.doers and doer not in unique:
                 unique.append(doer)
-        doers = unique
-        deeds = self.enter(doers=doers)  # provide fresh deeds for new doers
-        self.doers.extend(doers)
-        self.deeds.extend(deeds)
+        for doer in unique:  # one at a time so those entered before a failed enter get exited
+            deeds = self.enter(doers=[doer])  # provide fresh deed for new doer
+            self.doers.append(doer)
+            self.deeds.extend(deeds)
 
 
     def remove(self, doers):
